@@ -51,6 +51,7 @@ def run(ctx: Ctx) -> None:
     rust_tick(ctx, rs)
     isr_bits(ctx, py, rs)
     tick_sites(ctx, py, rs)
+    tick_discipline(ctx, py)
     from ..snaprules import timer_restore_findings
     found, nn = timer_restore_findings(py)
     for key, what, ln in found:
@@ -304,3 +305,53 @@ def tick_sites(ctx: Ctx, py: PyProgram, rs: RustProgram) -> None:
     if not loop_ok:
         ctx.violation("C13.4/tick-every-cycle", key_of(EMU, "_simulate_wait", "cycle_count += 1; tick"), "_simulate_wait does not advance one cycle and tick per iteration", f"{EMU}:{sw.lineno}")
     ctx.instance("C13.4/tick-sites", "tick call sites suppressed in handlers; WAIT/cycle loops tick each cycle (Rust 3 sites + loop, Python 3 sites + loop)", n, 8)
+
+
+def tick_discipline(ctx: Ctx, py: PyProgram) -> None:
+    """(a) every source the scheduler reports as fired is latched: _tick_timers loops over the whole result of advance();
+    (b) within one step, time is advanced only after the tick for the current cycle (no cycle_count write dominates a tick call), so
+    every cycle value is handed to the scheduler exactly once; (c) the period/target properties store what they are given
+    (a period of 0 means "never fires" and must stay 0)."""
+    fn = py.func(EMU, "PCE500Emulator._tick_timers")
+    n = 0
+    defs = py_defs(fn)
+    adv = [c for c in ast.walk(fn) if isinstance(c, ast.Call) and unparse(c.func).endswith("_scheduler.advance")]
+    ctx.need(len(adv) == 1, "_tick_timers: expected one scheduler.advance call")
+    holders = {t.id for a in ast.walk(fn) if isinstance(a, ast.Assign) and any(x is adv[0] for x in ast.walk(a.value)) for t in a.targets if isinstance(t, ast.Name)}
+    loops = [l for l in ast.walk(fn) if isinstance(l, ast.For) and any(isinstance(x, ast.Name) and x.id in holders for x in ast.walk(l.iter))]
+    ctx.need(len(loops) >= 1, "_tick_timers: loop over the fired sources not found")
+    for lp in loops:
+        n += 1
+        it = lp.iter
+        plain = isinstance(it, ast.Name) or (isinstance(it, ast.Call) and unparse(it.func) in ("list", "tuple", "iter") and len(it.args) == 1 and isinstance(it.args[0], ast.Name))
+        if not plain:
+            ctx.violation("C13.6/all-fired-latched", key_of(EMU, "PCE500Emulator._tick_timers", "loop over a part of the fired sources"),
+                          f"_tick_timers iterates `{unparse(it)}` instead of everything advance() reported: when both timers reach a boundary on the same cycle one of them consumes its boundary without setting its ISR bit", f"{EMU}:{lp.lineno}")
+    # (b)
+    st = py.func(EMU, "PCE500Emulator.step")
+    g = cfgmod.build_py(st, "step")
+    ticks = [c for c in ast.walk(st) if isinstance(c, ast.Call) and unparse(c.func) == "self._tick_timers"]
+    incs = [a for a in ast.walk(st) if isinstance(a, (ast.AugAssign, ast.Assign)) and any(attr_chain(t) == "self.cycle_count" for t in ([a.target] if isinstance(a, ast.AugAssign) else a.targets))]
+    ctx.need(len(ticks) >= 2 and len(incs) >= 2, f"step: expected tick call sites and cycle_count updates on the normal and halted paths, found {len(ticks)}/{len(incs)}")
+    for t in ticks:
+        tn = g.node_of(t)
+        for a in incs:
+            n += 1
+            an = g.node_of(a)
+            if tn is not None and an is not None and an != tn and g.dominates(an, tn):
+                ctx.violation("C13.6/tick-before-advance", key_of(EMU, "PCE500Emulator.step", "cycle counter advanced before the tick of the same step"),
+                              f"`{unparse(a)}` (line {a.lineno}) runs before `_tick_timers()` (line {t.lineno}) on every path: the cycle value in between is never handed to the scheduler, a boundary on it fires a cycle late", f"{EMU}:{t.lineno}")
+    # (c)
+    cls = py.need_cls(py.module(EMU), "PCE500Emulator")
+    k = 0
+    for node in cls.node.body:
+        if isinstance(node, ast.FunctionDef) and node.name.startswith("_timer_") and any(unparse(d).endswith(".setter") for d in node.decorator_list):
+            for a in ast.walk(node):
+                if isinstance(a, ast.Assign):
+                    k += 1
+                    v = unparse(a.value).replace(" ", "")
+                    if v not in ("value", "int(value)", "bool(value)"):
+                        ctx.violation("C13.6/setter-exact", key_of(EMU, f"PCE500Emulator.{node.name}.setter", "value rewritten"),
+                                      f"the {node.name} setter stores `{unparse(a.value)}` instead of the value it is given: a period of 0 (timer off) or a restored snapshot value is silently changed", f"{EMU}:{a.lineno}")
+    ctx.need(k >= 4, f"timer property setters not found ({k})")
+    ctx.instance("C13.6/tick-discipline", "all fired sources latched; tick precedes the cycle advance; timer setters store their argument", n + k, 8)
